@@ -240,10 +240,19 @@ func c18GroupFns(p *core.Prog, inPkg map[*ssa.Function]bool, typ string) []*ssa.
 }
 
 // c18Ret is one way a function returns result idx: the return instruction, or
-// (when the result is a φ in the return block) the jump that selects the value.
+// (when the result is a φ in the return block) the CFG edge into the return
+// block that selects the value. For an edge site `in` is the terminator of the
+// edge's source block (the jump of an arm that assigns the result, or the
+// `if`/select test itself when an arm is empty and the variable keeps its
+// initial value: `r := false; select { case …: r = true; default: }; return r`).
+// A way of returning is taken when that terminator is reached and the edge is
+// followed; the queries below (requires, reach, reachFromEdges, mustPass) say
+// this in terms of core.Reach, so that rules never ask about the terminator
+// alone (an `if` is reached on both outcomes).
 type c18Ret struct {
-	in  ssa.Instruction
-	val ssa.Value
+	in   ssa.Instruction
+	val  ssa.Value
+	edge *core.Edge
 }
 
 func c18RetSites(fn *ssa.Function, idx int) (sites []c18Ret, ok bool) {
@@ -257,16 +266,63 @@ func c18RetSites(fn *ssa.Function, idx int) (sites []c18Ret, ok bool) {
 			for i, e := range phi.Edges {
 				pred := phi.Block().Preds[i]
 				last := pred.Instrs[len(pred.Instrs)-1]
-				if _, isJump := last.(*ssa.Jump); !isJump {
-					ok = false
+				n := 0
+				for _, q := range phi.Block().Preds {
+					if q == pred {
+						n++
+					}
 				}
-				sites = append(sites, c18Ret{last, core.Forward(e)})
+				if n != 1 {
+					ok = false // two edges from one block: (From, To) does not name the way
+				}
+				sites = append(sites, c18Ret{last, core.Forward(e), &core.Edge{From: pred, To: phi.Block()}})
 			}
 			continue
 		}
-		sites = append(sites, c18Ret{r, v})
+		sites = append(sites, c18Ret{r, v, nil})
 	}
 	return
+}
+
+// reach: can this way of returning be taken on a path described by q (From,
+// Blocked, Cut; Target is set here)?
+func (s c18Ret) reach(q core.Q) bool {
+	if s.edge != nil && q.Cut != nil && q.Cut(*s.edge) {
+		return false
+	}
+	q.Target = core.Is(s.in)
+	_, ok := core.Reach(q)
+	return ok
+}
+
+// requires: every path from the entry that returns this way passes an edge on
+// which one of the atoms holds (core.Requires for a way of returning).
+func (s c18Ret) requires(fn *ssa.Function, atoms ...core.Atom) bool {
+	var cut []core.Edge
+	for _, a := range atoms {
+		h, _ := core.EdgesOf(fn, a)
+		cut = append(cut, h...)
+	}
+	return !s.reach(core.Q{From: []core.At{core.Entry(fn)}, Cut: core.CutSet(cut)})
+}
+
+// reachFromEdges: can this way of returning be taken after one of the edges es
+// (core.ReachableFromEdges for a way of returning; the selecting edge may be
+// one of es itself)?
+func (s c18Ret) reachFromEdges(es []core.Edge, blocked func(ssa.Instruction) bool) bool {
+	if s.edge != nil {
+		for _, e := range es {
+			if e == *s.edge {
+				return true
+			}
+		}
+	}
+	return s.reach(core.Q{From: c18Heads(es), Blocked: blocked})
+}
+
+// mustPass: every path from the entry that returns this way executes a site.
+func (s c18Ret) mustPass(fn *ssa.Function, site func(ssa.Instruction) bool) bool {
+	return !s.reach(core.Q{From: []core.At{core.Entry(fn)}, Blocked: site})
 }
 
 func c18IsConstBool(v ssa.Value, b bool) bool {
@@ -835,7 +891,7 @@ func c18(r *core.Run) {
 					}
 					continue
 				}
-				_, fromFound := core.Reach(core.Q{From: c18Heads(holds), Target: core.Is(s.in)})
+				fromFound := s.reachFromEdges(holds, nil)
 				switch {
 				case fromFound && !c18IsConstBool(s.val, true):
 					o.Fail(p.InstrPos(s.in), "%s reports done=%s on the found outcome: the sharing caller would execute again", core.FuncName(c), core.Describe(s.val))
@@ -904,7 +960,7 @@ func c18(r *core.Run) {
 						o.Fail(p.InstrPos(s.in), "%s reports fresh=%s: true for a shared result and false for its own execution", core.FuncName(f), core.Describe(s.val))
 						continue
 					}
-					_, afterExec := core.Reach(core.Q{From: []core.At{core.Entry(f)}, Target: core.Is(s.in), Blocked: isExec})
+					afterExec := s.reach(core.Q{From: []core.At{core.Entry(f)}, Blocked: isExec})
 					// afterExec==true means s is reachable WITHOUT executing: shared
 					shared := afterExec
 					if shared && !c18IsConstBool(s.val, false) {
@@ -970,11 +1026,11 @@ func c18(r *core.Run) {
 		for _, s := range sites {
 			switch {
 			case c18IsConstBool(s.val, true):
-				if w := core.Requires(tb, core.Is(s.in), sent); w != nil {
+				if !s.requires(tb, sent) {
 					o.Fail(p.InstrPos(s.in), "TryBorrow reports success although nothing was sent into the pool")
 				}
 			case c18IsConstBool(s.val, false):
-				if w := core.Requires(tb, core.Is(s.in), core.Not(sent)); w != nil {
+				if !s.requires(tb, core.Not(sent)) {
 					o.Fail(p.InstrPos(s.in), "TryBorrow reports failure although a slot was taken (the slot leaks)")
 				}
 			default:
@@ -1002,7 +1058,7 @@ func c18(r *core.Run) {
 		o.Site(len(sites), core.FuncName(f))
 		for _, s := range sites {
 			if core.IsNil(s.val) {
-				if w := core.Requires(f, core.Is(s.in), got); w != nil {
+				if !s.requires(f, got) {
 					o.Fail(p.InstrPos(s.in), "Return reports success although nothing was received from the pool")
 				}
 				continue
@@ -1014,11 +1070,11 @@ func c18(r *core.Run) {
 			// error passes the select's default" became "no path from a received slot, and no path around the
 			// select that a pool with room for a borrow can take")
 			gotEdges, notGotEdges := core.EdgesOf(f, got)
-			if w := core.ReachableFromEdges(gotEdges, core.Is(s.in), nil); w != nil {
+			if s.reachFromEdges(gotEdges, nil) {
 				o.Fail(p.InstrPos(s.in), "Return reports an error although a slot was released")
 			}
 			for _, k := range []int64{1, 2, 1 << 20} {
-				if _, ok := core.Reach(core.Q{From: []core.At{core.Entry(f)}, Target: core.Is(s.in), Cut: c18CutEither(core.CutSet(notGotEdges), core.ConcreteCut(f, c18CapOrLenOf(poolLoad), k))}); ok {
+				if s.reach(core.Q{From: []core.At{core.Entry(f)}, Cut: c18CutEither(core.CutSet(notGotEdges), core.ConcreteCut(f, c18CapOrLenOf(poolLoad), k))}) {
 					o.Fail(p.InstrPos(s.in), "Return reports an error without trying to receive although the pool (capacity/length %d) can hold outstanding borrows: a borrowed slot is never released", k)
 					break
 				}
@@ -1047,7 +1103,7 @@ func c18(r *core.Run) {
 		nTimeout := 0
 		for _, s := range sites {
 			if core.IsNil(s.val) {
-				if w := core.Requires(f, core.Is(s.in), borrowed); w != nil {
+				if !s.requires(f, borrowed) {
 					o.Fail(p.InstrPos(s.in), "Borrow reports success on a path without a successful TryBorrow: more than n borrows can be outstanding")
 				}
 				continue
@@ -1057,7 +1113,7 @@ func c18(r *core.Run) {
 				continue
 			}
 			nTimeout++
-			if w := core.Requires(f, core.Is(s.in), remainLE0, timerFired); w != nil {
+			if !s.requires(f, remainLE0, timerFired) {
 				o.Fail(p.InstrPos(s.in), "Borrow reports ErrTimeout on a path where neither the remaining timeout is <= 0 nor the timer fired")
 			}
 		}
@@ -1123,11 +1179,11 @@ func c18(r *core.Run) {
 			ret, isRet := s.in.(*ssa.Return)
 			switch {
 			case c18IsConstBool(s.val, false):
-				if w := core.Requires(f, core.Is(s.in), c18SelectIndex(sels[0], timIdx)); w != nil {
+				if !s.requires(f, c18SelectIndex(sels[0], timIdx)) {
 					o.Fail(p.InstrPos(s.in), "WaitWithTimeout reports 'timed out' on a path that is not the timer case")
 				}
 			case c18IsConstBool(s.val, true):
-				if w := core.Requires(f, core.Is(s.in), c18SelectIndex(sels[0], sigIdx)); w != nil {
+				if !s.requires(f, c18SelectIndex(sels[0], sigIdx)) {
 					o.Fail(p.InstrPos(s.in), "WaitWithTimeout reports 'signalled' on a path that is not the signal case")
 				}
 				if !isRet {
@@ -1185,7 +1241,7 @@ func c18(r *core.Run) {
 				break
 			}
 			if core.IsNil(s.val) {
-				if w := core.Requires(f, core.Is(s.in), okAtom); w != nil {
+				if !s.requires(f, okAtom) {
 					o.Fail(p.InstrPos(s.in), "Return reports success although the limit refused the return")
 				}
 			}
@@ -1560,10 +1616,10 @@ func c18(r *core.Run) {
 		}
 		for _, s := range sites {
 			if core.IsNil(s.val) {
-				if w := core.Requires(use, core.Is(s.in), notCleaned); w != nil {
+				if !s.requires(use, notCleaned) {
 					o.Fail(p.InstrPos(s.in), "Use succeeds on a cleaned resource")
 				}
-				if w := core.MustPass(core.Entry(use), isIncr, core.Is(s.in)); w != nil {
+				if !s.mustPass(use, isIncr) {
 					o.Fail(p.InstrPos(s.in), "Use succeeds without counting the use: the resource can be cleaned under its user")
 				}
 			} else if !core.IsGlobal(syncxPkg, "ErrUseOfCleaned")(s.val) {
@@ -1806,8 +1862,8 @@ func c18(r *core.Run) {
 				// explicit true/false per outcome
 				swapped := core.BoolVal(func(v ssa.Value) bool { return core.IsResult(v, 0, isCAS) })
 				switch {
-				case ok && c18IsConstBool(s.val, true) && core.Requires(f, core.Is(s.in), swapped) == nil:
-				case ok && c18IsConstBool(s.val, false) && core.Requires(f, core.Is(s.in), core.Not(swapped)) == nil:
+				case ok && c18IsConstBool(s.val, true) && s.requires(f, swapped):
+				case ok && c18IsConstBool(s.val, false) && s.requires(f, core.Not(swapped)):
 				default:
 					o.Fail(p.InstrPos(s.in), "%s does not return the outcome of the compare-and-swap", core.FuncName(f))
 				}
